@@ -48,6 +48,17 @@ def run(chk):
         if o.get("parseErrors") or "parsePanic" in o:
             chk.violation("oracle", case={"script": t}, go={"parseErrors": o.get("parseErrors")}, site="comment-glued-to-asset-token",
                           oracle=["a comment written directly after an asset/number/ratio token changes the parse: %s" % o.get("parseErrors")[:1]])
+    # probe of the second recorded quirk: an asset made of slashes is a comment opener once a newline follows
+    probes2 = ["send [// 1] (source = @a destination = @b)", "send [// 1] (source = @a destination = @b)\n",
+               "send [// 1] (\n source = @a destination = @b)"]
+    pouts2 = runner.run_go([{"id": i, "op": "parse", "script": t} for i, t in enumerate(probes2)])
+    if not pouts2[0].get("parseErrors") and "parsePanic" not in pouts2[0]:
+        for t, o in zip(probes2[1:], pouts2[1:]):
+            if o.get("parseErrors") or o.get("ast") != pouts2[0].get("ast"):
+                chk.violation("oracle", case={"script": t}, go={"parseErrors": o.get("parseErrors")}, site="asset-of-slashes-becomes-a-comment",
+                              oracle=["inserting a newline after the tokens of %r changes the parse: %s" % (probes2[0], (o.get("parseErrors") or [None])[:1])])
+    probes = probes + probes2
+    pouts = pouts + pouts2
     # the parser model (Model/Lex.lean, Model/Parse.lean) on the same texts, and on layout-stripped variants
     mtexts = [t for t, _ in items] + probes
     mgos = gos + pouts
